@@ -73,3 +73,26 @@ fn terms(depth: usize) -> Vec<T> {
         }
     }}}
 }
+
+// ---- the boundary between plain and quoted identifiers: the last plain identifier is 0x7FFF_FFFF -------------------------
+#[test] fn w__Dictionary_encode__never_hands_out_an_identifier_of_the_quoted_range() {
+    for start in [0x7FFF_FFFDu32, 0x7FFF_FFFE, 0x7FFF_FFFF, 0x8000_0000] {
+        let mut d = Dictionary::new();
+        let mut q = QuotedTripleStore::new();
+        let (a, b, c) = (d.encode("a"), d.encode("b"), d.encode("c"));
+        let qt = q.encode(a, b, c);
+        d.next_id = start;   // the counter is a public field; Dictionary::merge also moves it
+        for i in 0..4 {
+            let term = format!("term-{}", i);
+            let r = std::panic::catch_unwind(std::panic::AssertUnwindSafe(|| d.encode(&term)));
+            match r {
+                Err(_) => break,   // refusing is fine: the plain range is exhausted
+                Ok(id) => {
+                    assert!(!is_quoted_triple_id(id), "counter at {:#x}: the plain term {:?} received identifier {:#x}, which lies in the quoted-triple range", start, term, id);
+                    assert!(id != qt, "plain term {:?} shares identifier {:#x} with a quoted triple", term, id);
+                    assert!(d.decode_term(id, &q) == Some(term.clone()), "counter at {:#x}: identifier {:#x} of {:?} decodes to {:?}", start, id, term, d.decode_term(id, &q));
+                }
+            }
+        }
+    }
+}
